@@ -6,7 +6,8 @@ open Cppcheck.Wire
 /-! ## A. `combineOperators` commutes with relocations that keep what it reads of the positions
 
 `combineOperators` reads positions in four places only:
-  1. the ellipsis test   `n1.col = tok.col + 1 ∧ n2.col = tok.col + 2`       (columns of three `.` tokens)
+  1. the ellipsis test   `n1.col = tok.col + 1 ∧ n2.col = tok.col + 2`       (columns of three `.` tokens; the lines are
+                                                                              NOT compared: `DotsOK` below)
   2. the float test      `sameline prev tok`                                   (number before a `.`)
   3. the suffix test     `sameline tok' n`                                     (`1.` before `f`, `e5`, …)
   4. the operator guard  `sameline tok n ∧ tok.col + 1 = n.col`                (`+` `=`, `<` `<`, `-` `>` …)
@@ -14,14 +15,63 @@ open Cppcheck.Wire
 
 abbrev Pos := Nat × Nat
 
-def RTok.pos (t : RTok) : Pos := (t.line, t.col)
-
 /-- what `φ` has to preserve between positions of the set `P` -/
-structure Pres (φ : Pos → Pos) (P : Pos → Prop) : Prop where
+structure Pres (φ : Pos → Pos) (P Q : Pos → Prop) : Prop where
+  /-- "same line" between any two token positions -/
   line : ∀ p q, P p → P q → ((φ p).1 = (φ q).1 ↔ p.1 = q.1)
-  succ : ∀ p q, P p → P q → p.1 = q.1 → ((φ p).2 + 1 = (φ q).2 ↔ p.2 + 1 = q.2)
-  /-- columns of directly following `.` tokens (the ellipsis test does not look at lines) -/
-  dots : ∀ p q r, P p → P q → P r → (((φ q).2 = (φ p).2 + 1 ∧ (φ r).2 = (φ p).2 + 2) ↔ (q.2 = p.2 + 1 ∧ r.2 = p.2 + 2))
+  /-- "next column" between the positions of two one-character operator tokens on one line -/
+  succ : ∀ p q, Q p → Q q → p.1 = q.1 → ((φ p).2 + 1 = (φ q).2 ↔ p.2 + 1 = q.2)
+
+/-- a token that is a one-character operator sits at a position of `Q` -/
+def Wk (Q : Pos → Prop) (t : RTok) : Prop := t.op ≠ '\x00' → Q t.pos
+
+def OpIn (Q : Pos → Prop) (ts : List RTok) : Prop := ∀ t ∈ ts, Wk Q t
+
+theorem OpIn.tail {Q : Pos → Prop} {t : RTok} {ts : List RTok} (h : OpIn Q (t :: ts)) : OpIn Q ts :=
+  fun x hx => h x (List.mem_cons_of_mem _ hx)
+
+theorem OpIn.head {Q : Pos → Prop} {t : RTok} {ts : List RTok} (h : OpIn Q (t :: ts)) : Wk Q t :=
+  h t (by simp)
+
+theorem OpIn.drop {Q : Pos → Prop} {ts : List RTok} (h : OpIn Q ts) (k : Nat) : OpIn Q (ts.drop k) :=
+  fun x hx => h x (List.mem_of_mem_drop hx)
+
+theorem OpIn.cons {Q : Pos → Prop} {t : RTok} {ts : List RTok} (ht : Wk Q t) (h : OpIn Q ts) : OpIn Q (t :: ts) := by
+  intro x hx
+  rcases List.mem_cons.1 hx with rfl | hx
+  · exact ht
+  · exact h x hx
+
+/-- any spelling at a position of `Q` is fine -/
+theorem Wk.setstr {Q : Pos → Prop} {t : RTok} (h : Q t.pos) (s : Str) : Wk Q (t.setstr s) := fun _ => h
+
+theorem tOp_long (s : Str) (h : 2 ≤ s.length) : tOp s = '\x00' := by
+  match s, h with
+  | _ :: _ :: _, _ => rfl
+
+theorem tNumber_ne_nil {s : Str} (h : tNumber s = true) : s ≠ [] := by
+  intro e; subst e; cases h
+
+/-- the ellipsis test compares columns only; three directly following `.` tokens are required to share a line
+    (true of every C/C++ program: consecutive `.` tokens only arise from `...`) -/
+def dotsLine (tok : RTok) (rest : List RTok) : Prop :=
+  match rest with
+  | n1 :: n2 :: _ => tok.op = '.' → n1.op = '.' → n2.op = '.' → tok.line = n1.line ∧ n1.line = n2.line
+  | _ => True
+
+def DotsOK : List RTok → Prop
+  | [] => True
+  | t :: r => dotsLine t r ∧ DotsOK r
+
+theorem DotsOK.drop : ∀ (ts : List RTok) (k : Nat), DotsOK ts → DotsOK (ts.drop k) := by
+  intro ts
+  induction ts with
+  | nil => intro k _; simp [DotsOK]
+  | cons t r ih =>
+    intro k h
+    cases k with
+    | zero => exact h
+    | succ k => exact ih k h.2
 
 @[simp] theorem reloc_str (φ : Pos → Pos) (t : RTok) : (reloc φ t).str = t.str := by cases t; rfl
 @[simp] theorem reloc_op (φ : Pos → Pos) (t : RTok) : (reloc φ t).op = t.op := by cases t; rfl
@@ -107,7 +157,7 @@ theorem AllIn.cons {P : Pos → Prop} {t : RTok} {ts : List RTok} (ht : P t.pos)
   · exact ht
   · exact h x hx
 
-theorem sameline_reloc {φ : Pos → Pos} {P : Pos → Prop} (hφ : Pres φ P) {a b : RTok} (ha : P a.pos) (hb : P b.pos) :
+theorem sameline_reloc {φ : Pos → Pos} {P Q : Pos → Prop} (hφ : Pres φ P Q) {a b : RTok} (ha : P a.pos) (hb : P b.pos) :
     sameline (reloc φ a) (reloc φ b) = sameline a b := by
   simp only [sameline, reloc_line]
   exact decide_eq_decide.2 (hφ.line a.pos b.pos ha hb)
@@ -119,8 +169,8 @@ theorem and_decide_congr {A B C D : Prop} [Decidable A] [Decidable B] [Decidable
   simp only [Bool.and_eq_true, decide_eq_true_eq]
   exact h
 
-theorem ellTest_reloc {φ : Pos → Pos} {P : Pos → Prop} (hφ : Pres φ P) {tok : RTok} {rest : List RTok}
-    (ht : P tok.pos) (hr : AllIn P rest) :
+theorem ellTest_reloc {φ : Pos → Pos} {P Q : Pos → Prop} (hφ : Pres φ P Q) {tok : RTok} {rest : List RTok}
+    (hqt : Wk Q tok) (hqr : OpIn Q rest) (hop : tok.op = '.') (hdl : dotsLine tok rest) :
     ellTest (reloc φ tok) (rest.map (reloc φ)) = ellTest tok rest := by
   cases rest with
   | nil => rfl
@@ -128,15 +178,29 @@ theorem ellTest_reloc {φ : Pos → Pos} {P : Pos → Prop} (hφ : Pres φ P) {t
     cases r1 with
     | nil => rfl
     | cons n2 r2 =>
-      have h1 : P n1.pos := hr n1 (by simp)
-      have h2 : P n2.pos := hr n2 (by simp)
-      have hd := hφ.dots tok.pos n1.pos n2.pos ht h1 h2
-      have key : (decide ((reloc φ n1).col = (reloc φ tok).col + 1) && decide ((reloc φ n2).col = (reloc φ tok).col + 2))
-          = (decide (n1.col = tok.col + 1) && decide (n2.col = tok.col + 2)) := and_decide_congr hd
       simp only [List.map_cons, ellTest, reloc_op]
       by_cases c1 : n1.op = '.'
       · by_cases c2 : n2.op = '.'
-        · simp only [c1, c2, decide_true, Bool.true_and, Bool.and_true]
+        · have hl := hdl hop c1 c2
+          have ht : Q tok.pos := hqt (by rw [hop]; decide)
+          have h1 : Q n1.pos := hqr n1 (by simp) (by rw [c1]; decide)
+          have h2 : Q n2.pos := hqr n2 (by simp) (by rw [c2]; decide)
+          have s1 := hφ.succ tok.pos n1.pos ht h1 hl.1
+          have s2 := hφ.succ n1.pos n2.pos h1 h2 hl.2
+          have key : (decide ((reloc φ n1).col = (reloc φ tok).col + 1) && decide ((reloc φ n2).col = (reloc φ tok).col + 2))
+              = (decide (n1.col = tok.col + 1) && decide (n2.col = tok.col + 2)) := by
+            apply and_decide_congr
+            simp only [reloc_col, RTok.pos] at s1 s2 ⊢
+            constructor
+            · rintro ⟨a, b⟩
+              have e1 := s1.1 (by omega)
+              have e2 := s2.1 (by omega)
+              omega
+            · rintro ⟨a, b⟩
+              have e1 := s1.2 (by omega)
+              have e2 := s2.2 (by omega)
+              omega
+          simp only [c1, c2, decide_true, Bool.true_and, Bool.and_true]
           exact key
         · simp only [c2, decide_false, Bool.and_false, Bool.false_and]
       · simp only [c1, decide_false, Bool.false_and]
@@ -147,7 +211,7 @@ def mapS (φ : Pos → Pos) (s : List RTok × RTok × List RTok) : List RTok × 
 
 def AllInS (P : Pos → Prop) (s : List RTok × RTok × List RTok) : Prop := AllIn P s.1 ∧ P s.2.1.pos ∧ AllIn P s.2.2
 
-theorem floatMerge_reloc {φ : Pos → Pos} {P : Pos → Prop} (hφ : Pres φ P) {prev : List RTok} {tok : RTok} {rest : List RTok}
+theorem floatMerge_reloc {φ : Pos → Pos} {P Q : Pos → Prop} (hφ : Pres φ P Q) {prev : List RTok} {tok : RTok} {rest : List RTok}
     (hp : AllIn P prev) (ht : P tok.pos) (hr : AllIn P rest) :
     floatMerge (prev.map (reloc φ)) (reloc φ tok) (rest.map (reloc φ)) = mapS φ (floatMerge prev tok rest) := by
   cases prev with
@@ -242,18 +306,22 @@ theorem expBlock_allIn {P : Pos → Prop} {tok : RTok} {rest : List RTok} (ht : 
     exact ⟨ht, hr⟩
 
 
-theorem opGuard_reloc {φ : Pos → Pos} {P : Pos → Prop} (hφ : Pres φ P) {tok n : RTok} (ht : P tok.pos) (hn : P n.pos) :
+theorem opGuard_reloc {φ : Pos → Pos} {P Q : Pos → Prop} (hφ : Pres φ P Q) {tok n : RTok} (ht : P tok.pos) (hn : P n.pos)
+    (hqt : Wk Q tok) (hqn : Wk Q n) :
     opGuard (reloc φ tok) (reloc φ n) = opGuard tok n := by
   unfold opGuard
   rw [sameline_reloc hφ ht hn]
   simp only [reloc_op]
-  by_cases hs : sameline tok n = true
-  · have hl : tok.pos.1 = n.pos.1 := by simpa [sameline, RTok.pos] using hs
-    have hc := hφ.succ tok.pos n.pos ht hn hl
-    have key : decide ((reloc φ tok).col + 1 = (reloc φ n).col) = decide (tok.col + 1 = n.col) := decide_eq_decide.2 hc
-    rw [key]
-  · have : sameline tok n = false := by simpa using hs
-    simp only [this, Bool.and_false, Bool.false_and]
+  by_cases hz : (decide (tok.op = '\x00') || decide (n.op = '\x00')) = true
+  · simp only [hz, Bool.not_true, Bool.false_and]
+  · simp only [Bool.or_eq_true, decide_eq_true_eq, not_or] at hz
+    by_cases hs : sameline tok n = true
+    · have hl : tok.pos.1 = n.pos.1 := by simpa [sameline, RTok.pos] using hs
+      have hc := hφ.succ tok.pos n.pos (hqt hz.1) (hqn hz.2) hl
+      have key : decide ((reloc φ tok).col + 1 = (reloc φ n).col) = decide (tok.col + 1 = n.col) := decide_eq_decide.2 hc
+      rw [key]
+    · have : sameline tok n = false := by simpa using hs
+      simp only [this, Bool.and_false, Bool.false_and]
 
 def mapTR (φ : Pos → Pos) (s : RTok × List RTok) : RTok × List RTok := (reloc φ s.1, s.2.map (reloc φ))
 
@@ -328,13 +396,13 @@ theorem opMerge_allIn {P : Pos → Prop} {prev : List RTok} {st : Bool} {tok n :
                 · exact ⟨t1 _, hr'⟩
             · exact ⟨ht, hr⟩
 
-theorem opBlock_reloc {φ : Pos → Pos} {P : Pos → Prop} (hφ : Pres φ P) (prev : List RTok) (st : Bool) {tok : RTok} {rest : List RTok}
-    (ht : P tok.pos) (hr : AllIn P rest) :
+theorem opBlock_reloc {φ : Pos → Pos} {P Q : Pos → Prop} (hφ : Pres φ P Q) (prev : List RTok) (st : Bool) {tok : RTok} {rest : List RTok}
+    (ht : P tok.pos) (hr : AllIn P rest) (hqt : Wk Q tok) (hqr : OpIn Q rest) :
     opBlock (prev.map (reloc φ)) st (reloc φ tok) (rest.map (reloc φ)) = mapTR φ (opBlock prev st tok rest) := by
   cases rest with
   | nil => rfl
   | cons n r =>
-    simp only [List.map_cons, opBlock, opGuard_reloc hφ ht (hr n (by simp)), opMerge_reloc]
+    simp only [List.map_cons, opBlock, opGuard_reloc hφ ht (hr n (by simp)) hqt (hqr n (by simp)), opMerge_reloc]
     split <;> rfl
 
 theorem opBlock_allIn {P : Pos → Prop} {prev : List RTok} {st : Bool} {tok : RTok} {rest : List RTok}
@@ -347,17 +415,18 @@ theorem opBlock_allIn {P : Pos → Prop} {prev : List RTok} {st : Bool} {tok : R
     · exact opMerge_allIn ht hr
     · exact ⟨ht, hr⟩
 
-theorem dotBlock_reloc {φ : Pos → Pos} {P : Pos → Prop} (hφ : Pres φ P) {prev : List RTok} {tok : RTok} {rest : List RTok}
-    (hp : AllIn P prev) (ht : P tok.pos) (hr : AllIn P rest) :
+theorem dotBlock_reloc {φ : Pos → Pos} {P Q : Pos → Prop} (hφ : Pres φ P Q) {prev : List RTok} {tok : RTok} {rest : List RTok}
+    (hp : AllIn P prev) (ht : P tok.pos) (hr : AllIn P rest) (hqt : Wk Q tok) (hqr : OpIn Q rest) (hdl : dotsLine tok rest) :
     dotBlock (prev.map (reloc φ)) (reloc φ tok) (rest.map (reloc φ)) =
       ((dotBlock prev tok rest).1, mapS φ (dotBlock prev tok rest).2) := by
   unfold dotBlock
-  simp only [reloc_op, ellTest_reloc hφ ht hr, floatMerge_reloc hφ hp ht hr, dotNumber_reloc]
-  split
-  · split
+  simp only [reloc_op]
+  by_cases hop : tok.op = '.'
+  · simp only [hop, if_true, ellTest_reloc hφ hqt hqr hop hdl, floatMerge_reloc hφ hp ht hr, dotNumber_reloc]
+    split
     · simp only [mapS, List.map_drop]; rfl
     · rfl
-  · rfl
+  · simp only [hop, if_false]; rfl
 
 theorem dotBlock_allIn {P : Pos → Prop} {prev : List RTok} {tok : RTok} {rest : List RTok}
     (hp : AllIn P prev) (ht : P tok.pos) (hr : AllIn P rest) : AllInS P (dotBlock prev tok rest).2 := by
@@ -392,8 +461,127 @@ theorem scopeProbe_false (prev : List RTok) : scopeProbe prev = false := by
         rw [hc]; decide
       · simp [hc]
 
-theorem combineStep_reloc {φ : Pos → Pos} {P : Pos → Prop} (hφ : Pres φ P) {prev : List RTok} (scope : List Bool) {tok : RTok}
-    {rest : List RTok} (hp : AllIn P prev) (ht : P tok.pos) (hr : AllIn P rest) :
+def OpInS (Q : Pos → Prop) (s : List RTok × RTok × List RTok) : Prop := OpIn Q s.1 ∧ Wk Q s.2.1 ∧ OpIn Q s.2.2
+
+theorem floatMerge_opIn {Q : Pos → Prop} {prev : List RTok} {tok : RTok} {rest : List RTok}
+    (hp : OpIn Q prev) (ht : Q tok.pos) (hr : OpIn Q rest) : OpInS Q (floatMerge prev tok rest) ∧ Q (floatMerge prev tok rest).2.1.pos := by
+  have w : Wk Q tok := fun _ => ht
+  unfold floatMerge
+  cases prev with
+  | nil => exact ⟨⟨hp, w, hr⟩, ht⟩
+  | cons p pr =>
+    simp only
+    split
+    · cases rest with
+      | nil => exact ⟨⟨hp.tail, Wk.setstr ht _, hr⟩, ht⟩
+      | cons n r =>
+        simp only
+        split
+        · exact ⟨⟨hp.tail, Wk.setstr ht _, hr.tail⟩, ht⟩
+        · exact ⟨⟨hp.tail, Wk.setstr ht _, hr⟩, ht⟩
+    · exact ⟨⟨hp, w, hr⟩, ht⟩
+
+theorem dotNumber_opIn {Q : Pos → Prop} {s : List RTok × RTok × List RTok} (h : OpInS Q s) (hq : Q s.2.1.pos) :
+    OpInS Q (dotNumber s) := by
+  obtain ⟨p, t, r⟩ := s
+  cases r with
+  | nil => exact h
+  | cons n r' =>
+    simp only [dotNumber]
+    split
+    · exact ⟨h.1, Wk.setstr hq _, h.2.2.tail⟩
+    · exact h
+
+theorem dotBlock_opIn {Q : Pos → Prop} {prev : List RTok} {tok : RTok} {rest : List RTok}
+    (hp : OpIn Q prev) (ht : Wk Q tok) (hr : OpIn Q rest) : OpInS Q (dotBlock prev tok rest).2 := by
+  unfold dotBlock
+  split
+  · rename_i hop
+    have hq : Q tok.pos := ht (by rw [hop]; decide)
+    split
+    · exact ⟨hp, Wk.setstr hq _, hr.drop 2⟩
+    · have := floatMerge_opIn hp hq hr
+      exact dotNumber_opIn this.1 this.2
+  · exact ⟨hp, ht, hr⟩
+
+theorem expBlock_opIn {Q : Pos → Prop} {tok : RTok} {rest : List RTok} (ht : Wk Q tok) (hr : OpIn Q rest) :
+    Wk Q (expBlock tok rest).1 ∧ OpIn Q (expBlock tok rest).2 := by
+  unfold expBlock
+  by_cases h : expTrig tok.str = true
+  · simp only [h, if_true]
+    cases rest with
+    | nil => exact ⟨ht, hr⟩
+    | cons n1 r1 =>
+      cases r1 with
+      | nil => exact ⟨ht, hr⟩
+      | cons n2 r2 =>
+        by_cases h2 : (isOneOf n1 "+-" && n2.number) = true
+        · simp only [h2, if_true]
+          refine ⟨?_, hr.tail.tail⟩
+          intro hop
+          exfalso
+          apply hop
+          have hne : tok.str ≠ [] := by
+            apply tNumber_ne_nil
+            simp only [expTrig, Bool.and_eq_true] at h
+            exact h.1.1
+          show tOp (tok.str ++ [n1.op] ++ n2.str) = '\x00'
+          apply tOp_long
+          cases hs : tok.str with
+          | nil => exact absurd hs hne
+          | cons a b => simp; omega
+        · simp only [h2]
+          exact ⟨ht, hr⟩
+  · simp only [h]
+    exact ⟨ht, hr⟩
+
+theorem opMerge_opIn {Q : Pos → Prop} {prev : List RTok} {st : Bool} {tok n : RTok} {r : List RTok}
+    (ht : Q tok.pos) (hr : OpIn Q (n :: r)) : Wk Q (opMerge prev st tok n r).1 ∧ OpIn Q (opMerge prev st tok n r).2 := by
+  have hr' : OpIn Q r := hr.tail
+  have w : Wk Q tok := fun _ => ht
+  have t1 : ∀ s, Wk Q (tok.setstr s) := fun s => Wk.setstr ht s
+  unfold opMerge
+  split
+  · split
+    · exact ⟨w, hr⟩
+    · exact ⟨t1 _, hr'⟩
+  · split
+    · exact ⟨t1 _, hr'⟩
+    · split
+      · exact ⟨t1 _, hr'⟩
+      · split
+        · exact ⟨t1 _, hr'⟩
+        · split
+          · split
+            · split
+              · exact ⟨t1 _, hr'.tail⟩
+              · exact ⟨t1 _, hr'⟩
+            · exact ⟨t1 _, hr'⟩
+          · split
+            · split
+              · exact ⟨w, hr⟩
+              · split
+                · exact ⟨w, hr⟩
+                · exact ⟨t1 _, hr'⟩
+            · exact ⟨w, hr⟩
+
+theorem opBlock_opIn {Q : Pos → Prop} {prev : List RTok} {st : Bool} {tok : RTok} {rest : List RTok}
+    (ht : Wk Q tok) (hr : OpIn Q rest) : Wk Q (opBlock prev st tok rest).1 ∧ OpIn Q (opBlock prev st tok rest).2 := by
+  cases rest with
+  | nil => exact ⟨ht, hr⟩
+  | cons n r =>
+    simp only [opBlock]
+    split
+    · rename_i hg
+      have hop : tok.op ≠ '\x00' := by
+        simp only [opGuard, Bool.and_eq_true, Bool.not_eq_true', Bool.or_eq_false_iff, decide_eq_false_iff_not] at hg
+        exact hg.1.1.1
+      exact opMerge_opIn (ht hop) hr
+    · exact ⟨ht, hr⟩
+
+theorem combineStep_reloc {φ : Pos → Pos} {P Q : Pos → Prop} (hφ : Pres φ P Q) {prev : List RTok} (scope : List Bool) {tok : RTok}
+    {rest : List RTok} (hp : AllIn P prev) (ht : P tok.pos) (hr : AllIn P rest)
+    (hqp : OpIn Q prev) (hqt : Wk Q tok) (hqr : OpIn Q rest) (hdl : dotsLine tok rest) :
     combineStep (prev.map (reloc φ)) scope (reloc φ tok) (rest.map (reloc φ)) =
       ((combineStep prev scope tok rest).1.map (reloc φ), (combineStep prev scope tok rest).2.1,
        (combineStep prev scope tok rest).2.2.map (reloc φ)) := by
@@ -408,9 +596,10 @@ theorem combineStep_reloc {φ : Pos → Pos} {P : Pos → Prop} (hφ : Pres φ P
     by_cases h3 : tok.op = '}'
     · simp only [h3, if_true, List.map_cons]
     · simp only [h3, if_false]
-      rw [dotBlock_reloc hφ hp ht hr]
+      rw [dotBlock_reloc hφ hp ht hr hqt hqr hdl]
       have hd := dotBlock_allIn hp ht hr
-      generalize dotBlock prev tok rest = d at hd ⊢
+      have hdq := dotBlock_opIn hqp hqt hqr
+      generalize dotBlock prev tok rest = d at hd hdq ⊢
       obtain ⟨dc, dp, dt, dr⟩ := d
       simp only [mapS]
       by_cases h4 : dc = true
@@ -418,11 +607,35 @@ theorem combineStep_reloc {φ : Pos → Pos} {P : Pos → Prop} (hφ : Pres φ P
       · simp only [h4, Bool.false_eq_true, if_false]
         rw [expBlock_reloc]
         have he := expBlock_allIn hd.2.1 hd.2.2
-        generalize expBlock dt dr = e at he ⊢
+        have heq := expBlock_opIn hdq.2.1 hdq.2.2
+        generalize expBlock dt dr = e at he heq ⊢
         obtain ⟨et, er⟩ := e
         simp only
-        rw [opBlock_reloc hφ dp (scopeTop scope) he.1 he.2]
+        rw [opBlock_reloc hφ dp (scopeTop scope) he.1 he.2 heq.1 heq.2]
         simp only [mapTR, List.map_cons]
+
+theorem combineStep_opIn {Q : Pos → Prop} {prev : List RTok} {scope : List Bool} {tok : RTok} {rest : List RTok}
+    (hp : OpIn Q prev) (ht : Wk Q tok) (hr : OpIn Q rest) :
+    OpIn Q (combineStep prev scope tok rest).1 ∧ OpIn Q (combineStep prev scope tok rest).2.2 := by
+  unfold combineStep
+  by_cases h1 : tok.op = '{'
+  · simp only [h1, if_true]
+    split <;> exact ⟨OpIn.cons ht hp, hr⟩
+  · simp only [h1, if_false]
+    by_cases h3 : tok.op = '}'
+    · simp only [h3, if_true]
+      exact ⟨OpIn.cons ht hp, hr⟩
+    · simp only [h3, if_false]
+      have hd := dotBlock_opIn hp ht hr
+      generalize dotBlock prev tok rest = d at hd ⊢
+      obtain ⟨dc, dp, dt, dr⟩ := d
+      by_cases h4 : dc = true
+      · simp only [h4, if_true]
+        exact ⟨OpIn.cons hd.2.1 hd.1, hd.2.2⟩
+      · simp only [h4, Bool.false_eq_true, if_false]
+        have he := expBlock_opIn hd.2.1 hd.2.2
+        have ho := opBlock_opIn (prev := dp) (st := scopeTop scope) he.1 he.2
+        exact ⟨OpIn.cons ho.1 hd.1, ho.2⟩
 
 theorem combineStep_allIn {P : Pos → Prop} {prev : List RTok} {scope : List Bool} {tok : RTok} {rest : List RTok}
     (hp : AllIn P prev) (ht : P tok.pos) (hr : AllIn P rest) :
@@ -447,27 +660,145 @@ theorem combineStep_allIn {P : Pos → Prop} {prev : List RTok} {scope : List Bo
         have ho := opBlock_allIn (prev := dp) (st := scopeTop scope) he.1 he.2
         exact ⟨AllIn.cons ho.1 hd.1, ho.2⟩
 
-theorem combineLoop_reloc {φ : Pos → Pos} {P : Pos → Prop} (hφ : Pres φ P) :
+/-! every block hands on a suffix of the tokens behind the current one -/
+
+theorem floatMerge_drop (prev : List RTok) (tok : RTok) (rest : List RTok) :
+    ∃ k, (floatMerge prev tok rest).2.2 = rest.drop k := by
+  unfold floatMerge
+  cases prev with
+  | nil => exact ⟨0, rfl⟩
+  | cons p pr =>
+    simp only
+    split
+    · cases rest with
+      | nil => exact ⟨0, rfl⟩
+      | cons n r =>
+        simp only
+        split
+        · exact ⟨1, rfl⟩
+        · exact ⟨0, rfl⟩
+    · exact ⟨0, rfl⟩
+
+theorem dotNumber_drop (s : List RTok × RTok × List RTok) : ∃ k, (dotNumber s).2.2 = s.2.2.drop k := by
+  obtain ⟨p, t, r⟩ := s
+  cases r with
+  | nil => exact ⟨0, rfl⟩
+  | cons n r' =>
+    simp only [dotNumber]
+    split
+    · exact ⟨1, rfl⟩
+    · exact ⟨0, rfl⟩
+
+theorem dotBlock_drop (prev : List RTok) (tok : RTok) (rest : List RTok) :
+    ∃ k, (dotBlock prev tok rest).2.2.2 = rest.drop k := by
+  unfold dotBlock
+  split
+  · split
+    · exact ⟨2, rfl⟩
+    · obtain ⟨k1, h1⟩ := floatMerge_drop prev tok rest
+      obtain ⟨k2, h2⟩ := dotNumber_drop (floatMerge prev tok rest)
+      exact ⟨k1 + k2, by simp only [h2, h1, List.drop_drop]⟩
+  · exact ⟨0, rfl⟩
+
+theorem expBlock_drop (tok : RTok) (rest : List RTok) : ∃ k, (expBlock tok rest).2 = rest.drop k := by
+  unfold expBlock
+  split
+  · cases rest with
+    | nil => exact ⟨0, rfl⟩
+    | cons n1 r1 =>
+      cases r1 with
+      | nil => exact ⟨0, rfl⟩
+      | cons n2 r2 =>
+        simp only
+        split
+        · exact ⟨2, rfl⟩
+        · exact ⟨0, rfl⟩
+  · exact ⟨0, rfl⟩
+
+theorem opMerge_drop (prev : List RTok) (st : Bool) (tok n : RTok) (r : List RTok) :
+    ∃ k, (opMerge prev st tok n r).2 = (n :: r).drop k := by
+  unfold opMerge
+  split
+  · split
+    · exact ⟨0, rfl⟩
+    · exact ⟨1, rfl⟩
+  · split
+    · exact ⟨1, rfl⟩
+    · split
+      · exact ⟨1, rfl⟩
+      · split
+        · exact ⟨1, rfl⟩
+        · split
+          · split
+            · split
+              · exact ⟨2, rfl⟩
+              · exact ⟨1, rfl⟩
+            · exact ⟨1, rfl⟩
+          · split
+            · split
+              · exact ⟨0, rfl⟩
+              · split
+                · exact ⟨0, rfl⟩
+                · exact ⟨1, rfl⟩
+            · exact ⟨0, rfl⟩
+
+theorem opBlock_drop (prev : List RTok) (st : Bool) (tok : RTok) (rest : List RTok) :
+    ∃ k, (opBlock prev st tok rest).2 = rest.drop k := by
+  cases rest with
+  | nil => exact ⟨0, rfl⟩
+  | cons n r =>
+    simp only [opBlock]
+    split
+    · exact opMerge_drop prev st tok n r
+    · exact ⟨0, rfl⟩
+
+theorem combineStep_drop (prev : List RTok) (scope : List Bool) (tok : RTok) (rest : List RTok) :
+    ∃ k, (combineStep prev scope tok rest).2.2 = rest.drop k := by
+  unfold combineStep
+  split
+  · split <;> exact ⟨0, rfl⟩
+  · split
+    · exact ⟨0, rfl⟩
+    · obtain ⟨k1, h1⟩ := dotBlock_drop prev tok rest
+      generalize dotBlock prev tok rest = d at h1 ⊢
+      obtain ⟨dc, dp, dt, dr⟩ := d
+      simp only at h1
+      subst h1
+      simp only
+      by_cases hc : dc = true
+      · simp only [hc, if_true]
+        exact ⟨k1, rfl⟩
+      · simp only [hc, Bool.false_eq_true, if_false]
+        obtain ⟨k2, h2⟩ := expBlock_drop dt (rest.drop k1)
+        obtain ⟨k3, h3⟩ := opBlock_drop dp (scopeTop scope) (expBlock dt (rest.drop k1)).1 (expBlock dt (rest.drop k1)).2
+        refine ⟨k1 + k2 + k3, ?_⟩
+        rw [h3, h2, List.drop_drop, List.drop_drop, Nat.add_assoc]
+
+theorem combineLoop_reloc {φ : Pos → Pos} {P Q : Pos → Prop} (hφ : Pres φ P Q) :
     ∀ (n : Nat) (prev : List RTok) (scope : List Bool) (rest : List RTok), AllIn P prev → AllIn P rest →
+      OpIn Q prev → OpIn Q rest → DotsOK rest →
       combineLoop n (prev.map (reloc φ)) scope (rest.map (reloc φ)) = (combineLoop n prev scope rest).map (reloc φ) := by
   intro n
   induction n with
-  | zero => intro prev scope rest _ _; simp [combineLoop]
+  | zero => intro prev scope rest _ _ _ _ _; simp [combineLoop]
   | succ n ih =>
-    intro prev scope rest hp hr
+    intro prev scope rest hp hr hqp hqr hd
     cases rest with
     | nil => simp [combineLoop]
     | cons tok r =>
       simp only [List.map_cons, combineLoop]
-      rw [combineStep_reloc hφ scope hp hr.head hr.tail]
+      rw [combineStep_reloc hφ scope hp hr.head hr.tail hqp hqr.head hqr.tail hd.1]
       have ha := combineStep_allIn (scope := scope) hp hr.head hr.tail
-      exact ih _ _ _ ha.1 ha.2
+      have hb := combineStep_opIn (scope := scope) hqp hqr.head hqr.tail
+      obtain ⟨k, hk⟩ := combineStep_drop prev scope tok r
+      exact ih _ _ _ ha.1 ha.2 hb.1 hb.2 (hk ▸ DotsOK.drop r k hd.2)
 
 /-- **relocation equivariance of `combineOperators`** -/
-theorem combine_reloc {φ : Pos → Pos} {P : Pos → Prop} (hφ : Pres φ P) (ts : List RTok) (h : AllIn P ts) :
+theorem combine_reloc {φ : Pos → Pos} {P Q : Pos → Prop} (hφ : Pres φ P Q) (ts : List RTok) (h : AllIn P ts)
+    (hq : OpIn Q ts) (hd : DotsOK ts) :
     combine (ts.map (reloc φ)) = (combine ts).map (reloc φ) := by
   unfold combine
-  have := combineLoop_reloc hφ ts.length [] [false] ts (by intro t ht; cases ht) h
+  have := combineLoop_reloc hφ ts.length [] [false] ts (by intro t ht; cases ht) h (by intro t ht; cases ht) hq hd
   simpa using this
 
 theorem removeComments_reloc (φ : Pos → Pos) (ts : List RTok) :
@@ -780,5 +1111,314 @@ theorem lexLoop_bcom (f l c : Nat) (acc : List RTok) (b : Str) (rest : List Char
   simp only [List.cons_append, List.append_assoc] at hscan ⊢
   simp only [List.nil_append] at hscan
   simp [lexLoop, hscan, h2, show isNameChar '/' = false from by decide]
+
+
+theorem litOK_scan (q : Char) (i : Str) (h : litOK q i = true) : scanStr q false false i = .ok i [] := by
+  unfold litOK at h
+  split at h
+  · rename_i s heq
+    have : s = i := by simpa using h
+    rw [heq, this]
+  · cases h
+
+theorem lexLoop_lit (f l c : Nat) (acc : List RTok) (q : Char) (i : Str) (rest : List Char)
+    (hok : elemOK (.lit q i) = true) (hacc : litPrefix acc l c = []) :
+    lexLoop (f + 1) l c acc (q :: i ++ rest) =
+      lexLoop f (adjust l c (q :: i)).1 (adjust l c (q :: i)).2 (⟨q :: i, l, c⟩ :: acc) rest := by
+  simp only [elemOK, Bool.and_eq_true, Bool.or_eq_true, decide_eq_true_eq, Bool.not_eq_true'] at hok
+  obtain ⟨⟨hq, hl⟩, _⟩ := hok
+  have hscan := scanStr_append q i rest false false i (litOK_scan q i hl)
+  rcases hq with rfl | rfl
+  · simp [lexLoop, hscan, hacc, show isNameChar '"' = false from by decide]
+  · simp [lexLoop, hscan, hacc, show isNameChar '\'' = false from by decide]
+
+/-- no token of the accumulator is an encoding prefix (so no literal is glued to its predecessor) -/
+def NoPrefix (acc : List RTok) : Prop := ∀ b ∈ acc.head?, isStringLiteralPrefix b.str = false
+
+theorem litPrefix_nil {acc : List RTok} (h : NoPrefix acc) (l c : Nat) : litPrefix acc l c = [] := by
+  cases acc with
+  | nil => rfl
+  | cons b a =>
+    have := h b (by simp)
+    simp [litPrefix, this]
+
+theorem prefix_head {s : Str} (h : isStringLiteralPrefix s = true) : ∃ c r, s = c :: r ∧ (c = 'u' ∨ c = 'U' ∨ c = 'L' ∨ c = 'R') := by
+  simp only [isStringLiteralPrefix, Bool.or_eq_true, decide_eq_true_eq] at h
+  rcases h with (((((((h | h) | h) | h) | h) | h) | h) | h) | h <;> subst h <;> exact ⟨_, _, rfl, by decide⟩
+
+theorem noPrefix_of_head {t : RTok} {acc : List RTok} (c : Char) (r : Str) (hs : t.str = c :: r)
+    (hc : c ≠ 'u' ∧ c ≠ 'U' ∧ c ≠ 'L' ∧ c ≠ 'R') : NoPrefix (t :: acc) := by
+  intro b hb
+  simp only [List.head?_cons, Option.mem_def, Option.some.injEq] at hb
+  subst hb
+  cases h : isStringLiteralPrefix t.str with
+  | false => rfl
+  | true =>
+    obtain ⟨c', r', e, hc'⟩ := prefix_head h
+    rw [hs] at e
+    simp only [List.cons.injEq] at e
+    obtain ⟨rfl, _⟩ := e
+    rcases hc' with h | h | h | h
+    · exact absurd h hc.1
+    · exact absurd h hc.2.1
+    · exact absurd h hc.2.2.1
+    · exact absurd h hc.2.2.2
+
+/-- **`readfile` on a well-formed element sequence**: the raw tokens are the token elements, each at the
+    position the layout function `placeE` assigns (induction over the sequence; any fuel > its length). -/
+theorem lexLoop_elems : ∀ (es : List Elem) (fuel l c : Nat) (acc : List RTok),
+    elemsOK es = true → es.length < fuel → NoPrefix acc →
+    lexLoop fuel l c acc (renderE es) = some ((placeE l c es).reverse ++ acc) := by
+  intro es
+  induction es with
+  | nil =>
+    intro fuel l c acc _ hf _
+    cases fuel with
+    | zero => cases hf
+    | succ f => simp [renderE, lexLoop, placeE]
+  | cons e r ih =>
+    intro fuel l c acc hok hf hacc
+    cases fuel with
+    | zero => cases hf
+    | succ f =>
+      have hf' : r.length < f := by simpa using hf
+      simp only [elemsOK, Bool.and_eq_true] at hok
+      obtain ⟨⟨he, hst⟩, hr⟩ := hok
+      rw [renderE_cons]
+      cases e with
+      | ws x =>
+        simp only [elemOK, Bool.and_eq_true, decide_eq_true_eq, bne_iff_ne, ne_eq] at he
+        simp only [Elem.text, List.singleton_append]
+        rw [lexLoop_ws f l c acc x _ he.1.1 he.1.2, ih f l (c + 1) acc hr hf' hacc]
+        simp [placeE, Elem.isTok, Elem.text, adjust_single l c x he.1.2]
+      | nl =>
+        simp only [Elem.text, List.singleton_append]
+        rw [lexLoop_nl, ih f (l + 1) 1 acc hr hf' hacc]
+        simp [placeE, Elem.isTok, Elem.text, adjust]
+      | lcom b =>
+        simp only [Elem.text]
+        rw [lexLoop_lcom f l c acc b _ he hst, ih _ _ _ _ hr hf' (noPrefix_of_head '/' ('/' :: b) rfl (by decide))]
+        simp [placeE, Elem.isTok, Elem.text]
+      | bcom b =>
+        simp only [Elem.text]
+        rw [lexLoop_bcom f l c acc b _ he, ih _ _ _ _ hr hf' (noPrefix_of_head '/' ('*' :: (b ++ ['*', '/'])) rfl (by decide))]
+        simp [placeE, Elem.isTok, Elem.text]
+      | word s =>
+        simp only [elemOK, Bool.and_eq_true, bne_iff_ne, ne_eq, Bool.not_eq_true'] at he
+        obtain ⟨⟨hne, hall⟩, hnp⟩ := he
+        cases s with
+        | nil => exact absurd rfl hne
+        | cons a s' =>
+          simp only [Elem.text]
+          have hstop : wordStop a.isDigit (renderE r) = true := hst
+          rw [lexLoop_word f l c acc a s' _ hall hstop]
+          have hnp' : NoPrefix (⟨a :: s', l, c⟩ :: acc) := by
+            intro b hb
+            simp only [List.head?_cons, Option.mem_def, Option.some.injEq] at hb
+            subst hb; exact hnp
+          rw [ih _ _ _ _ hr hf' hnp']
+          simp [placeE, Elem.isTok, Elem.text]
+      | op x =>
+        simp only [Elem.text, List.singleton_append]
+        rw [lexLoop_op f l c acc x _ he hst]
+        have hx : x ≠ 'u' ∧ x ≠ 'U' ∧ x ≠ 'L' ∧ x ≠ 'R' := by
+          simp only [elemOK, Bool.and_eq_true, decide_eq_true_eq, Bool.not_eq_true', bne_iff_ne, ne_eq] at he
+          have hn := he.1.1.1.1.2
+          refine ⟨?_, ?_, ?_, ?_⟩ <;> (intro e; subst e; revert hn; decide)
+        have hnl : x ≠ '\n' := by
+          simp only [elemOK, Bool.and_eq_true, decide_eq_true_eq, Bool.not_eq_true', bne_iff_ne, ne_eq] at he
+          have h2 := he.1.1.1.1.1.2
+          intro e; subst e; revert h2; decide
+        rw [ih _ _ _ _ hr hf' (noPrefix_of_head x [] rfl hx)]
+        simp [placeE, Elem.isTok, Elem.text, adjust_single l c x hnl]
+      | lit q i =>
+        simp only [Elem.text]
+        rw [lexLoop_lit f l c acc q i _ he (litPrefix_nil hacc l c)]
+        have hq : q ≠ 'u' ∧ q ≠ 'U' ∧ q ≠ 'L' ∧ q ≠ 'R' := by
+          simp only [elemOK, Bool.and_eq_true, Bool.or_eq_true, decide_eq_true_eq] at he
+          rcases he.1.1 with rfl | rfl <;> decide
+        rw [ih _ _ _ _ hr hf' (noPrefix_of_head q i rfl hq)]
+        simp [placeE, Elem.isTok, Elem.text]
+
+
+/-! ## C. from the executable hypotheses to the ones the proofs use; the whole lexer on a rendered sequence -/
+
+theorem presB_spec (φ : Pos → Pos) (ps qs : List Pos) (h : presB φ ps qs = true) : Pres φ (· ∈ ps) (· ∈ qs) := by
+  simp only [presB, List.all_eq_true, Bool.and_eq_true, Bool.or_eq_true, beq_iff_eq, bne_iff_ne, ne_eq,
+    decide_eq_decide] at h
+  constructor
+  · intro p q hp hq
+    exact h.1 p hp q hq
+  · intro p q hp hq hl
+    rcases h.2 p hp q hq with h' | h'
+    · exact absurd hl h'
+    · exact h'
+
+theorem dotsOKB_spec : ∀ (ts : List RTok), dotsOKB ts = true → DotsOK ts := by
+  intro ts
+  induction ts with
+  | nil => intro _; trivial
+  | cons t r ih =>
+    intro h
+    simp only [dotsOKB, Bool.and_eq_true] at h
+    refine ⟨?_, ih h.2⟩
+    have h1 := h.1
+    unfold dotsLineB at h1
+    unfold dotsLine
+    split
+    · rename_i n1 n2 r2
+      intro a b c
+      simp only [a, b, c, decide_true, Bool.and_self, Bool.not_true, Bool.false_or, Bool.and_eq_true, decide_eq_true_eq] at h1
+      exact h1
+    · trivial
+
+theorem allIn_self (ts : List RTok) : AllIn (· ∈ ts.map RTok.pos) ts :=
+  fun t ht => List.mem_map.2 ⟨t, ht, rfl⟩
+
+theorem opIn_self (ts : List RTok) : OpIn (· ∈ opPositions ts) ts := by
+  intro t ht hop
+  simp only [opPositions, List.mem_map, List.mem_filter]
+  exact ⟨t, ⟨ht, by simpa using hop⟩, rfl⟩
+
+theorem elem_text_ne_nil {e : Elem} (h : elemOK e = true) : e.text ≠ [] := by
+  cases e <;> simp [Elem.text]
+  simp only [elemOK, Bool.and_eq_true, bne_iff_ne, ne_eq] at h
+  exact h.1.1
+
+theorem length_le_render : ∀ (es : List Elem), elemsOK es = true → es.length ≤ (renderE es).length := by
+  intro es
+  induction es with
+  | nil => intro _; simp [renderE]
+  | cons e r ih =>
+    intro h
+    simp only [elemsOK, Bool.and_eq_true] at h
+    rw [renderE_cons]
+    have := elem_text_ne_nil h.1.1
+    have hl : 1 ≤ e.text.length := by
+      cases ht : e.text with
+      | nil => exact absurd ht this
+      | cons _ _ => simp
+    have := ih h.2
+    simp only [List.length_cons, List.length_append]
+    omega
+
+theorem normCR_id : ∀ (s : List Char), '\r' ∉ s → normCR s = s := by
+  intro s
+  induction s with
+  | nil => intro _; rfl
+  | cons c r ih =>
+    intro h
+    simp only [List.mem_cons, not_or] at h
+    have hc : c ≠ '\r' := fun e => h.1 e.symm
+    unfold normCR
+    split
+    · rename_i heq; cases heq
+    · rename_i r' heq
+      simp only [List.cons.injEq] at heq
+      exact absurd heq.1 hc
+    · rename_i heq
+      simp only [List.cons.injEq] at heq
+      exact absurd heq.1 hc
+    · rename_i r' h1 heq
+      simp only [List.cons.injEq] at heq
+      exact absurd heq.1 hc
+    · rename_i c' r' h1 h2 h3 heq
+      simp only [List.cons.injEq] at heq
+      obtain ⟨rfl, rfl⟩ := heq
+      rw [ih h.2]
+
+theorem elem_no_cr {e : Elem} (h : elemOK e = true) : '\r' ∉ e.text := by
+  cases e with
+  | ws c =>
+    simp only [elemOK, Bool.and_eq_true, bne_iff_ne, ne_eq] at h
+    simp only [Elem.text, List.mem_singleton]
+    exact fun e => h.2 e.symm
+  | nl => simp [Elem.text]
+  | lcom b =>
+    simp only [elemOK, List.all_eq_true, Bool.and_eq_true, bne_iff_ne, ne_eq] at h
+    simp only [Elem.text, List.mem_cons, not_or]
+    refine ⟨by decide, by decide, fun hm => (h _ hm).2 rfl⟩
+  | bcom b =>
+    simp only [elemOK, Bool.and_eq_true, Bool.not_eq_true', List.contains_eq_mem, decide_eq_false_iff_not] at h
+    simp only [Elem.text, List.mem_cons, List.mem_append, not_or]
+    refine ⟨by decide, by decide, h.2, by decide, by decide, by simp⟩
+  | word s =>
+    simp only [elemOK, Bool.and_eq_true, List.all_eq_true] at h
+    intro hm
+    have := h.1.2 _ hm
+    revert this; decide
+  | op c =>
+    simp only [elemOK, Bool.and_eq_true, decide_eq_true_eq] at h
+    simp only [Elem.text, List.mem_singleton]
+    intro e
+    have h2 := h.1.1.1.1.1.2
+    rw [← e] at h2
+    revert h2; decide
+  | lit q i =>
+    simp only [elemOK, Bool.and_eq_true, Bool.or_eq_true, decide_eq_true_eq, Bool.not_eq_true', List.contains_eq_mem,
+      decide_eq_false_iff_not] at h
+    simp only [Elem.text, List.mem_cons, not_or]
+    refine ⟨?_, h.2⟩
+    rcases h.1.1 with rfl | rfl <;> decide
+
+theorem render_no_cr : ∀ (es : List Elem), elemsOK es = true → '\r' ∉ renderE es := by
+  intro es
+  induction es with
+  | nil => intro _; simp [renderE]
+  | cons e r ih =>
+    intro h
+    simp only [elemsOK, Bool.and_eq_true] at h
+    rw [renderE_cons, List.mem_append, not_or]
+    exact ⟨elem_no_cr h.1.1, ih h.2⟩
+
+theorem elem_head_ascii {e : Elem} (h : elemOK e = true) : ∃ c r, e.text = c :: r ∧ c.toNat < 128 := by
+  cases e with
+  | ws c =>
+    simp only [elemOK, Bool.and_eq_true, decide_eq_true_eq] at h
+    exact ⟨c, [], rfl, by omega⟩
+  | nl => exact ⟨'\n', [], rfl, by decide⟩
+  | lcom b => exact ⟨'/', _, rfl, by decide⟩
+  | bcom b => exact ⟨'/', _, rfl, by decide⟩
+  | word s =>
+    simp only [elemOK, Bool.and_eq_true, bne_iff_ne, ne_eq, List.all_eq_true] at h
+    cases s with
+    | nil => exact absurd rfl h.1.1
+    | cons a s' => exact ⟨a, s', rfl, (isNameChar_ascii (h.1.2 a (by simp))).1⟩
+  | op c =>
+    simp only [elemOK, Bool.and_eq_true, decide_eq_true_eq] at h
+    exact ⟨c, [], rfl, h.1.1.1.1.1.1⟩
+  | lit q i =>
+    simp only [elemOK, Bool.and_eq_true, Bool.or_eq_true, decide_eq_true_eq] at h
+    rcases h.1.1 with rfl | rfl
+    · exact ⟨'"', i, rfl, by decide⟩
+    · exact ⟨'\'', i, rfl, by decide⟩
+
+theorem skipBOM_render (es : List Elem) (h : elemsOK es = true) : skipBOM (renderE es) = some (renderE es) := by
+  cases es with
+  | nil => rfl
+  | cons e r =>
+    simp only [elemsOK, Bool.and_eq_true] at h
+    obtain ⟨c, t, ht, hc⟩ := elem_head_ascii h.1.1
+    rw [renderE_cons, ht, List.cons_append]
+    unfold skipBOM
+    split
+    · rename_i r' heq
+      simp only [List.cons.injEq] at heq
+      rw [heq.1] at hc
+      exact absurd hc (by decide)
+    · rename_i c' r' hno heq
+      simp only [List.cons.injEq] at heq
+      obtain ⟨rfl, rfl⟩ := heq
+      have : ¬ c.toNat ≥ 254 := by omega
+      simp [this]
+    · rename_i heq; cases heq
+
+/-- **`readfile` (before `combineOperators`) on a well-formed rendered sequence** -/
+theorem lexRaw_render (es : List Elem) (h : elemsOK es = true) : lexRaw (renderE es) = some (placeE 1 1 es) := by
+  unfold lexRaw
+  rw [skipBOM_render es h]
+  simp only [normCR_id _ (render_no_cr es h)]
+  rw [lexLoop_elems es _ 1 1 [] h (by have := length_le_render es h; omega) (by intro b hb; cases hb)]
+  simp
 
 end Cppcheck.Lexer
